@@ -13,6 +13,18 @@ Theorem C16_limits_table :
 Proof. vm_compute. split; [reflexivity | discriminate]. Qed.
 Print Assumptions C16_limits_table.
 
+(* the comparison operators of the four size checks of LoadArchiveFiles, read from the source by
+   the translator (go/ast), are the predicates the model's loop uses: a flipped operator in
+   archive.go breaks this obligation *)
+Theorem C16_limit_operators :
+  forall a b : Z,
+  cmp_of op_entry_vs_remaining a b = entry_over_remaining a b /\
+  cmp_of op_entry_vs_file_limit a b = entry_over_file_limit a b /\
+  cmp_of op_short_read a b = short_read a b /\
+  cmp_of op_budget_exhausted a 0 = budget_exhausted a.
+Proof. exact limit_operators. Qed.
+Print Assumptions C16_limit_operators.
+
 (* ---------- size budget ---------- *)
 (* For every entry sequence the tar reader can yield (it never yields more data than the
    header declares, nor a negative size) and every pair of limits: an accepted archive has
